@@ -235,6 +235,8 @@ pub fn gen_query() -> Option<String> {
     Some(parts.join("&"))
 }
 
+thread_local! { pub static EMPTY_VALUES: std::cell::Cell<u32> = const { std::cell::Cell::new(0) }; }
+
 pub fn gen_value() -> Vec<u8> {
     let mut v: Vec<u8> = match t::weighted(&[6, 2, 1]) {
         0 => t::string(VALUE_CHARS, 1, 24).into_bytes(),
@@ -360,7 +362,26 @@ pub fn gen_request(o: &GenOpts) -> ReqSpec {
         };
         // (an address a proxy reports is a header value like any other: the peer of the connection stays what it is)
         let value = if name == "X-Forwarded-For" && t::chance(2, 3) { t::pick(&["203.0.113.7", "203.0.113.7, 10.0.0.2", "2001:db8::1", "unknown", "198.51.100.23,10.1.1.1"]).as_bytes().to_vec() } else { gen_value() };
+        // (wave 16) `Name: ` with nothing behind the blank: an empty value is a value. Only for a name that is not repeated in
+        // the request (what a list made of empty members looks like is nobody's business here), not for Cookie
+        let unique = !headers.iter().any(|(n, _)| n.eq_ignore_ascii_case(name));
+        let value = if unique && !name.eq_ignore_ascii_case("cookie") && name != "X-Forwarded-For" && t::chance(1, 14) { EMPTY_VALUES.with(|e| e.set(e.get() + 1)); Vec::new() } else { value };
         headers.push((spelled, value));
+    }
+    // an emptied header must stay unique
+    {
+        let mut seen: Vec<String> = Vec::new();
+        let mut drop_idx: Vec<usize> = Vec::new();
+        for (i, (n, _)) in headers.iter().enumerate() {
+            let l = n.to_ascii_lowercase();
+            if headers.iter().any(|(n2, v2)| n2.eq_ignore_ascii_case(n) && v2.is_empty()) && seen.contains(&l) {
+                drop_idx.push(i);
+            }
+            seen.push(l);
+        }
+        for i in drop_idx.into_iter().rev() {
+            headers.remove(i);
+        }
     }
     if o.connection_header && t::chance(1, 8) {
         headers.push((spell("Connection", o.name_case, true), b"keep-alive".to_vec()));
